@@ -161,6 +161,19 @@ def lower_unit(spec, prop, known_uncontracted=None, known_functions=None):
     for m in macros:
         parts.append("#ifndef %s\n#define %s\n#endif" % (m, m))
     parts.append(text)
+    for cn in b.new_unconstrained:
+        # a function the changed code newly calls and the spec knows nothing about: any result, no effect (over-approximation;
+        # a failure that depends on it only counts when the native replay reproduces it)
+        pr = u.protos.get(cn, "").split("\n")[0]
+        m = re.match(r"^(.*?)\b%s\((.*)\)$" % re.escape(cn), pr)
+        if m:
+            rt = m.group(1).strip()
+            if rt == "void":
+                parts.append("%s { }" % pr)
+            elif rt == "ref":
+                parts.append("%s { ref r_; __CPROVER_assume(r_ < HEAP_N); return r_; }" % pr)
+            else:
+                parts.append("%s { %s r_; return r_; }" % (pr, rt))
     if spec.harness_file:
         parts.append('#line 1 "%s"' % os.path.join(VERIF, spec.harness_file))
         parts.append(open(os.path.join(VERIF, spec.harness_file)).read())
